@@ -910,10 +910,11 @@ bytes it returns decode completely under the reference lexer — every opcode kn
 complete and in its prescribed encoding, exactly one STOP, last — and every argument is inside
 its domain.  `FloatOK` and `ModsOK` are the two parameters taken as given (Rust's float
 formatting; the embedded module list, checked on every run by the translator/driver). -/
-theorem generate_wf (hE : Lawful E) (hF : FloatOK X.fmt) (hM : ModsOK X.mods) (hv : c.version ≤ 5)
+theorem generate_lex (hE : Lawful E) (hF : FloatOK X.fmt) (hM : ModsOK X.mods) (hv : c.version ≤ 5)
     (s s' : σ) (r : Result) (h : generate E X c s = .ok (r, s'))
     (hlen : (r.instrs.flatMap Enc.encode).length < 18446744073709551616) :
-    Spec.wellFormed r.bytes = true := by
+    ∃ hdr : List Instr, hdr.length ≤ 2 ∧ Lex.lex r.bytes = .ok (hdr ++ r.instrs) ∧
+      ∀ i ∈ hdr ++ r.instrs, domainOk i = true := by
   obtain ⟨⟨n, g, s2, s3, hb, hi⟩, hbytes⟩ := generate_shape E X c s s' r h
   have hbody := bodyLoop_fine E X c hE hF hM n { sim := initState c.version } g s2 s3
     (by simp [initState]) (by simp) hb
@@ -951,14 +952,31 @@ theorem generate_wf (hE : Lawful E) (hF : FloatOK X.fmt) (hM : ModsOK X.mods) (h
     rw [hbytes, List.flatMap_append, List.flatMap_append, hhdr, hflat]
     simp [List.append_assoc]
   have hl := lex_encode (hdr ++ pre) (fun i hi' => (hfine i hi').1.1) (fun i hi' => (hfine i hi').2)
+  have hinstrs : hdr ++ r.instrs = (hdr ++ pre) ++ [stopI] := by
+    rw [hi]; simp [pre, stopI, stopInstr, List.append_assoc]
+  refine ⟨hdr, ?_, ?_, ?_⟩
+  · simp only [hdr, List.length_append]
+    have a1 : (if c.version ≥ 2 then [protoInstr c.version] else []).length ≤ 1 := by split <;> simp
+    have a2 : (if r.framed then [(⟨.frame, .nat (r.instrs.flatMap Enc.encode).length⟩ : Instr)] else []).length ≤ 1 := by
+      split <;> simp
+    omega
+  · rw [hinstrs, henc, hl]
+  · rw [hinstrs]
+    intro i hi'
+    rcases List.mem_append.mp hi' with hi' | hi'
+    · exact (hfine i hi').1.2
+    · simp only [List.mem_singleton] at hi'
+      subst hi'; rfl
+
+theorem generate_wf (hE : Lawful E) (hF : FloatOK X.fmt) (hM : ModsOK X.mods) (hv : c.version ≤ 5)
+    (s s' : σ) (r : Result) (h : generate E X c s = .ok (r, s'))
+    (hlen : (r.instrs.flatMap Enc.encode).length < 18446744073709551616) :
+    Spec.wellFormed r.bytes = true := by
+  obtain ⟨hdr, _, hl, hd⟩ := generate_lex E X c hE hF hM hv s s' r h hlen
   unfold Spec.wellFormed
-  rw [henc, hl]
+  rw [hl]
   simp only [List.all_eq_true]
-  intro i hi'
-  rcases List.mem_append.mp hi' with hi' | hi'
-  · exact (hfine i hi').1.2
-  · simp only [List.mem_singleton] at hi'
-    subst hi'; rfl
+  exact hd
 
 end G
 end PFV
